@@ -547,11 +547,13 @@ pub fn check() -> Check {
     Check::new(
         "C10",
         "exploration",
-        "proptest-generated strictly ordered multi-version tables (four key families incl. empty key, 0x00/0xff runs, prefix chains; timestamps incl. 0 and u64::MAX; tombstone runs; values 0..30000 bytes) x builder options (restart intervals 1..100000 bytes / 1..1000 pairs, block sizes 4096..65536) x cursor programs of <= 40 calls starting with an absolute seek; compared call by call with a vector reference cursor, plus full forward/backward walks, timestamped point lookups, metadata and re-open; separately, invalid inputs (equal, out-of-order, oversize) injected at generated positions must be rejected with the documented code and leave the table as if never offered. Non-trivial: block with >= 4 entries incl. a multi-version key and a program of >= 4 calls; sst with >= 2 data blocks and a multi-version key; distinct by structural hash.",
+        "proptest-generated strictly ordered multi-version tables (four key families incl. empty key, 0x00/0xff runs, prefix chains; timestamps incl. 0 and u64::MAX; tombstone runs; values 0..30000 bytes) x builder options (restart intervals 1..100000 bytes / 1..1000 pairs, block sizes 4096..65536) x cursor programs of <= 40 calls starting with an absolute seek; compared call by call with a vector reference cursor, plus full forward/backward walks, timestamped point lookups, metadata and re-open; separately, invalid inputs (equal, out-of-order, oversize; each through put and through del) injected at generated positions must be rejected with the documented code and leave no trace: approximate_size unchanged by the refused offer, and the sealed block / sst equal to the one built from the accepted entries alone in contents, metadata (setsum, timestamps, first / last key), point lookups of present and of refused keys, and byte for byte. Part multi-builder-roundtrip: the same tables (value profiles mixed / tiny / every value above the smallest target size) through SstMultiBuilder with generated target_file_size and minimum_file_size (4096 .. 64 MiB, incl. values below the documented clamp), split_hint() calls at generated positions and invalid offers at generated positions incl. as the first entry of a new file (after a roll, after a split hint, after an earlier refused offer): the concatenation of the output files in file order is exactly the accepted sequence, every file is non-empty and passes all per-file oracles of the sst part against its slice, consecutive files are ordered (a shared boundary key has its newer versions first), the files' setsums add up to the setsum of the input. Part boundary-sizes: keys of MAX_KEY_LEN-1 / MAX_KEY_LEN / MAX_KEY_LEN+1 bytes through put and del and values of MAX_VALUE_LEN-1 / MAX_VALUE_LEN / MAX_VALUE_LEN+1 bytes mixed into small tables, through BlockBuilder, SstBuilder and SstMultiBuilder: entries within the maxima are accepted and round-trip (walks, seeks to the long keys, point lookups, metadata), the others are refused with the documented code and leave no trace. Non-trivial: block with >= 4 entries incl. a multi-version key and a program of >= 4 calls; sst with >= 2 data blocks and a multi-version key; multi builder with >= 2 output files and a multi-version key; boundary-sizes with >= 2 accepted entries incl. one of exactly a documented maximum; distinct by structural hash.",
     )
     .assume("reference cursor semantics are those documented on sst::Cursor: seek_to_first = before first, seek_to_last = after last, stepping off an end stays at that end")
     .assume("the first call of every program is an absolute seek (the position of a freshly constructed cursor is not documented)")
     .assume("an entry (empty key, timestamp u64::MAX) is never offered as the first entry: the builders' initial 'last key' equals it, so it is outside the accepted domain")
+    .assume("SstMultiBuilder: a refused offer may close or open an output file before it is refused (approximate_size is compared across a refused offer only where the offer goes to an open file below its target size); the files themselves must not show the refused offer")
+    .assume("table-full (TABLE_FULL_SIZE, 960 MiB) is not reached by generated tables")
     .pbt(BlockRoundTrip)
     .pbt(SstRoundTrip)
     .pbt(Rejects)
